@@ -138,6 +138,16 @@ int main(void)
 			printf("%s | C raw=%zu usr=%zu | I len=%zu\n", stall ? " stall" : "", sraw, susr, dlen);
 			free(ps);
 		}
+		else if (!strcmp(op, "empty") && drv_nw == 2) {
+			/* a call without values (len 0) reads nothing and returns the empty part; the value pointer points
+			 * behind an exact-size allocation, so any read is a heap overflow for ASan */
+			MPT_STRUCT(linepart) pt;
+			char *edge = malloc(1);
+			memset(&pt, 0xa5, sizeof(pt));
+			mpt_linepart_linear(&pt, (const double *) (void *) (edge + 1), 0, have_range ? &range : 0);
+			free(edge);
+			printf("R part %u:%u:%u:%u | C - | I -\n", pt.raw, pt.usr, pt._cut, pt._trim);
+		}
 		else if (!strcmp(op, "code") && drv_nw == 3) {
 			double v;
 			if (parse_val(drv_w[2], strlen(drv_w[2]), &v)) { puts("bad-op"); continue; }
